@@ -35,6 +35,28 @@ def html(m, text):
         return htmlnorm.ws_normalize(r.render(d)) + ' DEFS ' + json.dumps(defs, sort_keys=True)
 
 
+PROTECTED = ('CodeFence', 'BlockCode', 'HtmlBlock', 'Table', 'Heading')
+
+
+def protected_blocks(m, text):
+    """The blocks that reflowing must not re-break (code blocks, HTML blocks, tables, ATX headings), each written out by itself
+    without a line limit and without its container prefix, in document order."""
+    from mistletoe.markdown_renderer import MarkdownRenderer
+    out = []
+    with MarkdownRenderer() as r:
+        doc = m.Document(text)
+
+        def walk(t):
+            for c in (t.children or []):
+                name = c.__class__.__name__
+                if name in PROTECTED:
+                    out.append(name + ':' + proj.asc(r.render(c)))
+                elif hasattr(c, 'line_number') and name not in ('Paragraph', 'SetextHeading'):
+                    walk(c)
+        walk(doc)
+    return out
+
+
 def line_facts(lines, words, hard, W):
     """For each output line: its length and the number of breakable spaces after the container prefix."""
     facts, k, ok = [], 0, True
@@ -74,7 +96,7 @@ def reflow_record(m, src, words, hard, W, L, protected=None):
     facts, ok = line_facts(lines, words, hard, W) if W >= 0 else ([], True)
     return {'law': 'reflow', 'L': L, 'y': proj.asc(y), 'z': proj.asc(z), 'htmlX': proj.asc(html(m, src)),
             'htmlY': proj.asc(html(m, y)), 'lines': facts, 'wordsOk': 'yes' if ok else 'no',
-            'protectedIn': [], 'protectedOut': []}
+            'protectedIn': protected_blocks(m, src), 'protectedOut': protected_blocks(m, y)}
 
 
 def _doc_worker(args):
